@@ -2238,6 +2238,12 @@ def builtin_summary(I, cal, args, node, st):
             and args[1][0] == 'lit' and isinstance(args[1][1], int) and not isinstance(args[1][1], bool):
         # slice.get(k) on a sequence whose elements are known: Some(element k) when k is in range, None otherwise
         return [Out('val', ('ctor', 'Some', (args[0][1][args[1][1]],)) if 0 <= args[1][1] < len(args[0][1]) else ('ctor', 'None', ()), st)]
+    if name in ('first', 'last', 'get') and cal.startswith('core::slice::<impl [T]>::') and args and args[0][0] == 'lit' and isinstance(args[0][1], bytes) \
+            and (name != 'get' or (len(args) == 2 and args[1][0] == 'lit' and isinstance(args[1][1], int) and not isinstance(args[1][1], bool))):
+        # first() / last() / get(k) of a byte string whose octets are known: Some(that octet) when there is one, None otherwise
+        bs = args[0][1]
+        k = 0 if name == 'first' else len(bs) - 1 if name == 'last' else args[1][1]
+        return [Out('val', ('ctor', 'Some', (('lit', bs[k]),)) if 0 <= k < len(bs) else ('ctor', 'None', ()), st)]
     if name in ('is_empty', 'len') and args and args[0][0] == 'array':
         return [Out('val', ('lit', len(args[0][1]) == 0 if name == 'is_empty' else len(args[0][1])), st)]
     if name in ('min', 'max') and len(args) == 2 and all(a[0] == 'lit' and isinstance(a[1], int) and not isinstance(a[1], bool) for a in args) \
